@@ -49,6 +49,8 @@ def main (args : List String) : IO UInt32 := do
   | ["static"] => loop stdin stdout saStep {}; return 0
   | ["dynamic"] => loop stdin stdout daStep (FFSM2.Arrays.Dynamic.init 0 0); return 0
   | ["tasklist"] => loop stdin stdout tlStep {}; return 0
+  | ["layout"] => for l in layoutLines do IO.println l
+                  return 0
   | ["machine"] => machineLoop stdin none; return 0
   | ["dispatch", n] => for l in dispatchLines (nat! n) do IO.println l
                        return 0
